@@ -4,6 +4,7 @@ import BevySyncModel.Props.C12
 import BevySyncModel.Props.C13
 import BevySyncModel.Props.C14
 import BevySyncModel.Props.C16
+import BevySyncModel.Props.C17
 import BevySyncModel.Props.C02
 import BevySyncModel.Props.C08
 import BevySyncModel.Props.C09
